@@ -169,6 +169,8 @@ func getAugmentableNodesForModule(applyToMod parse.Node) []parse.Node {
 	allowedNodes = append(allowedNodes,
 		applyToMod.ChildrenByType(parse.NodeRpc)...)
 	allowedNodes = append(allowedNodes,
+		applyToMod.ChildrenByType(parse.NodeNotification)...)
+	allowedNodes = append(allowedNodes,
 		applyToMod.ChildrenByType(parse.NodeInput)...)
 	allowedNodes = append(allowedNodes,
 		applyToMod.ChildrenByType(parse.NodeOutput)...)
